@@ -21,6 +21,8 @@ POLY = ("ico", "cube3D", "cube4D")
 
 
 def dim_of(alg):
+    if alg.startswith("FG|"):
+        return "fg"
     return 3 if alg in ("ico", "cube3D", "randomS") else 4
 
 
@@ -140,12 +142,12 @@ def _machine_shard(arg):
                 self._do({"op": "create", "spec": list(pool[i])})
 
             @precondition(lambda self: len(self.w.live) > 0)
-            @rule(obj=st.integers(0, 5), getter=st.integers(0, 6))
+            @rule(obj=st.integers(0, 5), getter=st.integers(0, 8))
             def getter(self, obj, getter):
                 self._do({"op": "getter", "obj": obj, "getter": getter})
 
             @precondition(lambda self: len(self.w.live) > 0)
-            @rule(obj=st.integers(0, 5), getters=st.lists(st.integers(0, 6), min_size=2, max_size=6))
+            @rule(obj=st.integers(0, 5), getters=st.lists(st.integers(0, 8), min_size=2, max_size=6))
             def getter_burst(self, obj, getters):
                 for gi in getters:  # several getters on one object, any order, repeats likely
                     self._do({"op": "getter", "obj": obj, "getter": gi})
@@ -239,6 +241,8 @@ def run(tier):
         # keyed by a size only would be shared between them
         n4 = min(n for a, n in pool if a == "cube4D")
         pool += [("randomQ", n4), ("ico", n4), ("cube3D", 2 * n4), ("randomS", 2 * n4)]
+        # full SE(3) grids in both position modes: their getters are pure functions of the specification as well
+        pool += [("FG|cube4D_4|ico_7|[0.2, 0.35]|0", 0), ("FG|randomQ_5|cube3D_9|[0.2, 0.3, 0.5]|1", 0), ("FG|1|randomS_8|[0.3]|1", 0)]
         machines, steps = 96, 25
         prefix_jobs = [("ico", 200, list(range(1, 60)) + [97, 98, 99, 161, 162, 163, 199]),
                        ("cube3D", 200, list(range(1, 60)) + [97, 98, 99, 161, 162, 163, 199]),
@@ -251,6 +255,8 @@ def run(tier):
             pool += [(alg, int(n)) for n in rng.choice(np.arange(4, 48), size=6, replace=False)] + [(alg, 3)]
         n4 = min(n for a, n in pool if a == "cube4D" and n >= 4)
         pool += [("randomQ", n4), ("ico", n4), ("cube3D", 2 * n4), ("randomS", 2 * n4)]
+        pool += [("FG|cube4D_4|ico_7|[0.2, 0.35]|0", 0), ("FG|randomQ_5|cube3D_9|[0.2, 0.3, 0.5]|1", 0), ("FG|1|randomS_8|[0.3]|1", 0),
+                 ("FG|cube4D_8|ico_12|linspace(0.2, 0.6, 3)|1", 0), ("FG|randomQ_6|1|[0.1, 0.2]|0", 0)]
         machines, steps = 320, 40
         prefix_jobs = []
         for alg, n_max, ns in (("ico", 700, list(range(1, 700))), ("cube3D", 700, list(range(1, 700))),
@@ -272,8 +278,8 @@ def run(tier):
     results += pmap(_prefix_job, prefix_jobs)
     res = merge_results(results)
     res.violations.sort(key=lambda v: len(str(v["case"])))
-    rule = (f"Hypothesis state machine over a pool of {len(pool)} grid specifications {pool}: rules create / getter (6 getters per "
-            f"dimension) / reseed numpy's global generator / build a larger grid of the same polytope algorithm; up to {steps} steps; "
+    rule = (f"Hypothesis state machine over a pool of {len(pool)} grid specifications {pool}: rules create / getter (6-9 getters per "
+            f"kind of grid, full SE(3) grids in both position modes included) / reseed numpy's global generator / build a larger grid of the same polytope algorithm; up to {steps} steps; "
             f"references from fresh spawned interpreters. Plus prefix enumeration grid(N) == grid(N_max)[:N] for "
             f"{[(a, m, len(n)) for a, m, n in prefix_jobs]} (algorithm, N_max, number of N). Non-trivial history = a reseed between two "
             f"constructions of one specification, a getter called twice on one object, or a larger grid built between two uses of a "
